@@ -36,7 +36,10 @@ RULE = ('fault enumeration: method(5) x session state named by the request(9: '
         'cooperatively as a control. '
         'thorough = all cells; quick = seeded sample + all API cells. '
         'distinct = distinct cells; each evaluates completion, status and '
-        'gateway-protocol oracles')
+        'gateway-protocol oracles; third server = asyncio behind the real '
+        'aiohttp adapter, observed as HTTP/1.1 and RFC 6455 bytes; competing '
+        'upgrade sockets (3 timings x 5 behaviours of the late-comer) with '
+        'state oracles; bursts of 400 sends in every session state')
 ASSUMPTIONS = ['a long-poll may legitimately take ping_interval+ping_timeout; '
                'every other request and API call must finish without virtual '
                'time advancing',
